@@ -108,6 +108,8 @@ func runC13(c *Ctx) {
 	r.Rule("C13.R2", "for every configuration the answerer's DTLSTransport.role() agrees with the a=setup it answered, the answer is a legal response to the offered a=setup (RFC 4145 §4.1: active<->passive), and the offerer's role (pion's role() for actpass offers, for every offerer-side configured role; RFC 4145 otherwise) is the opposite one", 48)
 	r.Rule("C13.R3", "for every ICE-lite combination exactly one peer computes ICERoleControlling in SetRemoteDescription and it is the RFC 8445 §6.1.1 choice (the full agent if exactly one is lite, else the offerer)", 4)
 	r.Rule("C13.R4", "glue: the tabulated values are the ones used - startTransports receives the iceRole variable and dtlsRoleFromSDP(desc.parsed) and passes them unchanged to ICETransport.Start / DTLSTransport.Start; prepareStart stores the remote parameters before evaluating role(); every sdp.ConnectionRole argument in the module is a forwarded parameter, connectionRoleFromDtlsRole(defaultDtlsRoleOffer)=actpass (offers) or CreateAnswer's tabulated variable; a=setup is written only from such a parameter; a=ice-lite is written iff the ICELite setting is on", 22)
+	r.Rule("C13.R6", "sibling agreement: every reader of a session-level flag attribute (func(*sdp.SessionDescription) bool, e.g. isIceLiteSet / isExtMapAllowMixedSet) recognises the key the same way (today: strings.TrimSpace(a.Key) == key over desc.Attributes); a lone exact-match reader misses a whitespace-padded a=ice-lite", 1)
+	c13R6(c) // c13b.go
 	r.NotCovered = append(r.NotCovered,
 		"what pion/ice and pion/dtls do with the roles they are given",
 		"role stability across renegotiation / ICE restart (roles are decided by the first SetRemoteDescription)",
